@@ -177,6 +177,19 @@ func HeartState() (uint64, string) {
 	return heartbeat.Load(), l
 }
 
+// curLib is the label of the library call the running task is inside ("" in harness code). Under the cooperative
+// scheduler one task runs at a time; a task parking at a yield site takes its label with it (sched.go). The scheduler
+// publishes it as the heartbeat label while it waits for the bubble to become quiescent, so that a library call that
+// blocks for good on a lock of its own is attributed to that call and not to the scheduler.
+var curLib atomic.Value
+
+func CurLib() string {
+	l, _ := curLib.Load().(string)
+	return l
+}
+
+func SetCurLib(l string) { curLib.Store(l) }
+
 // PanicInfo describes a recovered panic of a library call.
 type PanicInfo struct {
 	Value string
@@ -248,7 +261,10 @@ func (r *Run) Call(label string, f func()) (p *PanicInfo) {
 		return nil
 	}
 	Beat(label)
+	prev := CurLib()
+	curLib.Store(label)
 	defer func() {
+		curLib.Store(prev)
 		if v := recover(); v != nil {
 			frame := innermostModuleFrame()
 			if frame == "unknown" {
